@@ -14,13 +14,15 @@ CONSTANTS LEN, DEVS
 Alphabet == { NormA(TRUE), NormB(FALSE), OddField(10, 1, 3, TRUE), OddField(255, 3, 1, FALSE),
               OddFlag(8, TRUE), OddFlag(255, FALSE), OddType(5, TRUE), OddType(255, FALSE),
               OddType(0, TRUE), Invalid(TRUE) }
+\* parse results of the alphabet, evaluated once (constant definition)
+P == [m \in Alphabet |-> ParseMsg(m)]
 VARIABLES st, rest, hist
 vars == <<st, rest, hist>>
 
 MCInit == st = ReaderInit /\ rest \in [1..LEN -> Alphabet] /\ hist = <<>>
 Step(a) == /\ rest # <<>> /\ st.status = "Reading"
-           /\ ReaderAction(Head(rest), DEVS) = a
-           /\ st' = ReaderRead(st, Head(rest), DEVS)
+           /\ ActionOf(P[Head(rest)], DEVS) = a                 \* = ReaderAction(Head(rest), DEVS)
+           /\ st' = ReaderStep(st, P[Head(rest)], DEVS)         \* = ReaderRead(st, Head(rest), DEVS)
            /\ rest' = Tail(rest) /\ hist' = Append(hist, Head(rest))
            /\ PrintT(<<"ACT", a>>)          \* vacuity guard: the check counts the actions taken
 Deliver == Step("Deliver")
@@ -30,12 +32,12 @@ MCNext == Deliver \/ Skip \/ Stop
 
 \* C13, stated on the history without the machine:
 \* the reader never stops on a message that is valid (known or unknown type, fields, flags)
-NeverStopsOnTolerated == st.status = "Stopped" => ~Tolerated(hist[Len(hist)])
+NeverStopsOnTolerated == st.status = "Stopped" => ~P[hist[Len(hist)]].ok      \* ~Tolerated(last)
 \* delivered = the consumed messages of known type, in order, as long as all were valid
 DeliveredRight ==
-  LET valid == {i \in 1..Len(hist) : Tolerated(hist[i])}
+  LET valid == {i \in 1..Len(hist) : P[hist[i]].ok}
       upto  == IF valid = 1..Len(hist) THEN Len(hist) ELSE (CHOOSE i \in 1..Len(hist) : i \notin valid /\ \A j \in 1..(i - 1) : j \in valid) - 1
-  IN st.delivered = SelectSeq([i \in 1..upto |-> i], LAMBDA i : ~ParseMsg(hist[i]).skip)
+  IN st.delivered = SelectSeq([i \in 1..upto |-> i], LAMBDA i : ~P[hist[i]].skip)
 \* nothing is consumed after a stop; every message is consumed otherwise
 Progress == st.pos = Len(hist) /\ (st.status = "Reading" /\ rest # <<>> => ENABLED MCNext)
 =============================================================================
